@@ -110,29 +110,44 @@ class ElementTraits<std::index_sequence<I...>, Parameter...>
 
     static constexpr auto TRAILING_ALIGNMENTS = calculate_trailing_alignments();
 
-    template <template <class> class Predicate, bool BreakAtPadding = false>
+    template <template <class> class Predicate, bool BreakAtPadding = false, bool BreakAtAmbiguousLength = false>
     static constexpr auto calculate_consecutive_indices() noexcept
     {
         std::array<std::size_t, sizeof...(Parameter)> consecutive_indices{((void)I, SKIP)...};
         [[maybe_unused]] std::size_t index{};
+        [[maybe_unused]] bool has_fixed_size{};
+        [[maybe_unused]] bool has_varying_size{};
         (
             [&]
             {
                 if constexpr (Predicate<typename detail::ParameterTraits<Parameter>::ValueType>::value)
                 {
-                    if constexpr (BreakAtPadding && I != 0)
+                    constexpr auto TYPE = detail::ParameterTraits<Parameter>::TYPE;
+                    // there may be padding bytes in front of this parameter: it cannot extend a byte-wise run
+                    const bool is_padded = BreakAtPadding && I != 0 &&
+                                           std::get<(I == 0 ? 0 : I - 1)>(TRAILING_ALIGNMENTS) <
+                                               detail::ParameterTraits<Parameter>::ALIGNMENT;
+                    // the length of a FixedSize parameter is not part of the compared bytes: two runs of equal length
+                    // can be split differently unless it is the only parameter of variable length in its run
+                    const bool is_ambiguous =
+                        BreakAtAmbiguousLength &&
+                        ((TYPE == detail::ParameterType::FIXED_SIZE && (has_fixed_size || has_varying_size)) ||
+                         (TYPE == detail::ParameterType::VARYING_SIZE && has_fixed_size));
+                    if (is_padded || is_ambiguous)
                     {
-                        // there may be padding bytes in front of this parameter: it cannot extend a byte-wise run
-                        if (std::get<(I == 0 ? 0 : I - 1)>(TRAILING_ALIGNMENTS) < detail::ParameterTraits<Parameter>::ALIGNMENT)
-                        {
-                            index = I;
-                        }
+                        index = I;
+                        has_fixed_size = false;
+                        has_varying_size = false;
                     }
+                    has_fixed_size = has_fixed_size || TYPE == detail::ParameterType::FIXED_SIZE;
+                    has_varying_size = has_varying_size || TYPE == detail::ParameterType::VARYING_SIZE;
                     consecutive_indices[index] = I;
                 }
                 else
                 {
                     index = I + 1;
+                    has_fixed_size = false;
+                    has_varying_size = false;
                     consecutive_indices[I] = MANUAL;
                 }
             }(),
@@ -148,7 +163,7 @@ class ElementTraits<std::index_sequence<I...>, Parameter...>
         calculate_consecutive_indices<detail::IsTriviallySwappable>()};
 
     static constexpr auto CONSECUTIVE_EQUALITY_MEMCMPABLE_INDICES{
-        calculate_consecutive_indices<detail::EqualityMemcmpCompatible, true>()};
+        calculate_consecutive_indices<detail::EqualityMemcmpCompatible, true, true>()};
 
     static constexpr auto CONSECUTIVE_LEXICOGRAPHICAL_MEMCMPABLE_INDICES{
         calculate_consecutive_indices<detail::LexicographicalMemcmpCompatible, true>()};
